@@ -48,6 +48,9 @@ std::vector<const SyntaxNode*> Disambiguator::persistentAmbiguities() const
 template <class ExprT>
 SyntaxVisitor::Action Disambiguator::visitMaybeAmbiguousExpression(ExprT* const& node)
 {
+    if (!node)
+        return Action::Skip;
+
     ExprT*& node_P = const_cast<ExprT*&>(node);
     switch (node->kind()) {
         case SyntaxKind::AmbiguousCastOrBinaryExpression: {
@@ -85,6 +88,9 @@ SyntaxVisitor::Action Disambiguator::visitMaybeAmbiguousExpression(ExprT* const&
 template <class StmtT>
 SyntaxVisitor::Action Disambiguator::visitMaybeAmbiguousStatement(StmtT* const& node)
 {
+    if (!node)
+        return Action::Skip;
+
     StmtT*& node_P = const_cast<StmtT*&>(node);
     switch (node->kind()) {
         case SyntaxKind::AmbiguousMultiplicationOrPointerDeclaration:
@@ -123,6 +129,9 @@ SyntaxVisitor::Action Disambiguator::visitMaybeAmbiguousStatement(StmtT* const& 
 template <class TypeRefT>
 SyntaxVisitor::Action Disambiguator::visitMaybeAmbiguousTypeReference(TypeRefT* const& node)
 {
+    if (!node)
+        return Action::Skip;
+
     TypeRefT*& node_P = const_cast<TypeRefT*&>(node);
     switch (node->kind()) {
         case SyntaxKind::AmbiguousTypeNameOrExpressionAsTypeReference: {
